@@ -31,6 +31,7 @@ PARENTS = {
               'with a as x, b: pass\n@a\nclass C(a, k=b): pass\ndef f(p=a, *, q: b = c) -> d: pass\nmatch a:\n    case 1 if b: pass\n'),
     'layout': 'r = (a) + (  # c\n    b) * c\ns = f(a,\n      b + c,  # k\n      d)\nt = [a if b\n     else c]\nu = a \\\n  + b\n',
     'tight': 'r = [v[0]for v in x]\ns = a if(c)else b\nt = f()if g()else"s"\nu = (p)in(q)and(w)or[k]\nv = {m:n for m in(o)if(p)}\n',
+    'asyncs': 'async def g():\n    async with a: pass\n    async with b as x, c: pass\n    async for y in d: pass\n    with e: pass\n    await f\n',
     'walrus': 'r = (a := b)\nif (n := a) > b: pass\ns = [y := a, y ** 2]\nt = f(x := a)\n',
 }
 CHILDREN = [
@@ -164,7 +165,7 @@ for _k in PARENTS:
                        'fst.astutil.precedence_require_parens_by_type', 'fst.fst_core._is_atom', 'fst.fst_core._is_enclosed_or_line', 'fst.fst_core._is_enclosed_in_parents',
                        'fst.fst_misc._parenthesize_grouping', 'fst.fst_misc._unparenthesize_grouping'],
                       f'parent program {_k} ({_ns} expression slots) x {len(CHILDREN)} replacement snippets; slot ordinal and snippet index are finite choice variables '
-                      '(solver-enumerated); reference = same substitution on the pure AST, judged by CPython', tier='quick' if _k in ('arith', 'logic', 'calls', 'layout', 'tight') else 'thorough',
+                      '(solver-enumerated); reference = same substitution on the pure AST, judged by CPython', tier='quick' if _k in ('arith', 'logic', 'calls', 'layout', 'tight', 'asyncs') else 'thorough',
                       budget=1200, per_path=60, out='parents / snippets outside the tables; pars=False (excluded by the property)', reset=pc.reset_globals))
 for _n, _src, _scr, _tier in LETTER:
     CELLS.append(tletter.letter_cell('T1', _n, _src, _scr, tier=_tier))
